@@ -83,15 +83,30 @@ def integer_streams(quick_pairs, thorough_pairs):
         shards = 1 if quick else 4
         for bt in INT_BTS:
             for n in INT_LARGE:
-                if bt == "u64" and n > 64:
-                    continue
+                # multi-block uint64_t: every operator except *= (known finding integer.u64.multiblock_mul: undefined behaviour, not called)
+                ops = "nomul" if bt == "u64" and n > 64 else "all"
                 for sh in range(shards):
-                    jobs.append(dict(exe=exes["h_integer_" + bt], args=["rnd", str(n), bt, str(cnt // shards), "all"],
+                    jobs.append(dict(exe=exes["h_integer_" + bt], args=["rnd", str(n), bt, str(cnt // shards), ops],
                                      env={"VERIF_SEED": str(seed * 100 + sh)}, label=f"integer<{n},{bt}> structured shard {sh}"))
-        # multi-block uint64_t (carry chain drops the carry): add/sub/logic/shift only
-        jobs.append(dict(exe=exes["h_integer_u64"], args=["rnd", "128", "u64", str(max(200, cnt // 20)), "nomul"],
-                         env={"VERIF_SEED": str(seed * 100)}, label="integer<128,u64> structured (multi-block uint64_t)"))
         jobs.sort(key=lambda j: 0 if "<9," in j["label"] else (1 if "<8," in j["label"] else 2))
+        return jobs
+    return f
+
+
+def integer_conv_streams(quick_cnt, thorough_cnt):
+    """C15 clause integer<n1> -> integer<n2> (converting constructor: bitcopy + sign extension) and the native conversions:
+    the `conv` opset of h_integer — every value of the sizes <= 9 bits into n+1, n-1, n+8, 2n+3, (n+1)/2 bits on every limb type,
+    structured operands of the larger sizes (targets with one, two and more limbs above the source's top limb)"""
+    def f(tier, seed, exes):
+        jobs = []
+        quick = tier == "quick"
+        for bt in INT_BTS:
+            exe = exes["h_integer_" + bt]
+            for n in range(2, 10):
+                jobs.append(dict(exe=exe, args=["exh", str(n), bt, "0", "conv"], label=f"integer<{n},{bt}> every value, size conversions"))
+            for n in INT_LARGE:
+                jobs.append(dict(exe=exe, args=["rnd", str(n), bt, str(quick_cnt if quick else thorough_cnt), "conv"],
+                                 env={"VERIF_SEED": str(seed * 100)}, label=f"integer<{n},{bt}> structured, size conversions"))
         return jobs
     return f
 
@@ -186,9 +201,9 @@ PROPS = {
                    "every implementation output is judged by the executable specification",
         level_note="trusted: Lean kernel, hand-written limb model (tied by correspondence only on explored inputs), g++ 12.2; "
                    "all of add/sub/mul/div(Modulo)/negate/++/--/comparisons are proved Model = Spec for every nbits, rbits and limb width "
-                   "(C07_add, C07_sub, C07_mul, C07_div_modulo, C07_neg, C07_inc_dec, C07_cmp, C07_saturate_never_wraps_*); "
-                   "known findings with negation witnesses: Saturate operator/= is a stub (D11, C07_div_saturate_counterexample), "
-                   "Modulo unary minus of maxneg returns maxpos (C07_neg_modulo_counterexample)",
+                   "(C07_add, C07_sub, C07_mul, C07_div_modulo, C07_neg, C07_inc_dec, C07_cmp, C07_saturate_never_wraps_*); unary minus is "
+                   "the exact negation wrapped (Modulo) or clamped (Saturate) since the repair of operator- (C07_neg for both modes); "
+                   "known finding with negation witness: Saturate operator/= is a stub (D11, C07_div_saturate_counterexample)",
         explanation="fixpnt + - * / negate ++ -- comparisons in Modulo and Saturate mode on u8/u16/u32: limb-list model of the "
                     "blockbinary loops vs. exact integer/rational arithmetic with wrap or clamp",
         assumptions=["the compiled code behaves like the model on inputs that were not explored",
@@ -199,16 +214,21 @@ PROPS = {
         streams=integer_streams(4000, 100000),
         level="proof",
         level_text="Lean theorems (for every nbits and limb width) about the limb-level model of integer<nbits,bt> "
-                   "(+= carry chain with MSU mask, -=, schoolbook *=, idiv long division and the native fast path, <<= >>= block+bit "
+                   "(+= carry chain with MSU mask incl. the wrap-around carry of uint64_t blocks, -=, schoolbook *=, idiv long division and the native fast path, <<= >>= block+bit "
                    "shifts with sign extension, bitwise operators, converting constructor, native conversions) against the ring "
                    "Z/2^nbits on Int; the compiled headers are tied to the model by exhaustive (<=9 bit, u8/u16/u32/u64, every shift "
-                   "count in [-nbits-1, nbits+1]) and structured transcripts and every output is judged by the executable specification",
+                   "count in [-nbits-1, nbits+1]) and structured transcripts (up to 129 bits on all four block types, divisor -1 and "
+                   "all-ones carry chains sent explicitly) and every output is judged by the executable specification",
         level_note="trusted: Lean kernel, hand-written limb model (tied by correspondence only on explored inputs), g++ 12.2; "
-                   "every clause is proved Model = Spec for every nbits and limb width except multi-block uint64_t (C08_add/sub/neg/inc/dec/"
-                   "mul/bitwise/cmp/shl/shr/divrem/convert/from_native/to_native; C08_shr holds for every count since the repair 11c577e of "
-                   "D8); known findings with negation witnesses: native INT_MIN / -1 traps in the exact-fit 32/64-bit fast "
-                   "path (C08_div_native_trap_counterexample), multi-block uint64_t carry chain drops the carry "
-                   "(C08_add_u64_multiblock_counterexample)",
+                   "every clause is proved Model = Spec for every nbits and every limb width, multi-block uint64_t included (C08_add/sub/neg/"
+                   "inc/dec/bitwise/cmp/shl/divrem/convert/from_native/to_native; right shifts: C08_shr_partial / C08_shl_negative_count_partial "
+                   "for counts < nbits or non-negative values, C08_shr_count_ge_nbits = the result is 0 from nbits on; known finding D8 with "
+                   "negation witness C08_shr_counterexample: a negative value shifted right by >= nbits gives 0, not -1 (the repair 11c577e was "
+                   "withdrawn: the library test static/integer/binary/logic/shift_right.cpp expects maxneg >> nbits == 0); "
+                   "C08_add and everything built on it for uint64_t blocks since the repair of the += carry chain, C08_divrem for every "
+                   "operand pair with b != 0 since the native fast path negates instead of dividing by -1); C08_mul for every limb width "
+                   "whose partial products fit the 64-bit accumulator (C08_MulSupported); known finding without stream: multi-block uint64_t "
+                   "operator*= (undefined behaviour `segment >>= 64`, integer.u64.multiblock_mul) is not called",
         explanation="integer + - * / % << >> & | ^ ~ unary minus ++ -- comparisons, size conversion, native conversions on "
                     "u8/u16/u32/u64: limb-list model vs. two's-complement ring arithmetic on Int",
         assumptions=["the compiled code behaves like the model on inputs that were not explored",
@@ -225,7 +245,9 @@ PROPS = {
                    "must be identical",
         level_note="covers blockbinary, integer and fixpnt only (cfloat, lns, areal, einteger belong to other harnesses); trusted: Lean "
                    "kernel, hand-written limb model, g++ 12.2; blockbinary/fixpnt operator<<= is block-type independent since the repair "
-                   "433c6a0 of D7 (C12_bb_shl); known finding: native INT_MIN / -1 traps only in the exact-fit instantiation",
+                   "fd17b6d of D7 (C12_bb_shl); integer and blockbinary / and % are block-type independent for every operand pair since the "
+                   "exact-fit native fast path no longer traps on most negative / -1 (C12_blocktype_independent_integer_divrem, "
+                   "C12_blocktype_independent_blockbinary_muldiv without trap hypothesis); no known finding left",
         explanation="same operation streams on integer / blockbinary / fixpnt for every block type; raw storage compared across "
                     "instantiations and with the limb model",
         assumptions=["the compiled code behaves like the model on inputs that were not explored"],
@@ -233,8 +255,11 @@ PROPS = {
 }
 
 
+PROPS["C15"] = dict(harness=["h_integer_" + bt for bt in INT_BTS], streams=integer_conv_streams(20000, 400000),
+                    proof_modules=["UVerifProofs.Props.C08"])
+
 # ---- filter: this module was a worker's monolithic props.py; expose only what the worker owns -------------------------
-_OWNED = ['C07', 'C08', 'C12']
+_OWNED = ['C07', 'C08', 'C12', 'C15']
 _BASE_HARNESS = ['h_pconv', 'h_pconv_san', 'h_posit', 'h_posit_san', 'h_quire', 'h_quire_san', 'h_threads', 'h_threads_tsan']
 HARNESS = {k: v for k, v in HARNESS.items() if k not in _BASE_HARNESS}
 CONTRIB = {k: v for k, v in PROPS.items() if k in _OWNED}
